@@ -6,7 +6,7 @@
    empty spelling, or outside the keyword range makes [table_ok] compute to false and this file stops compiling.
    The naming-positions half is in Properties/C17_naming.v. *)
 From Coq Require Import List NArith Bool.
-From DC Require Import Gen.TokenTable Lexer.LexerModel Token.TokenProof.
+From DC Require Import Gen.TokenTable Lexer.LexerModel Token.TokenProof Token.TokenConverse.
 Import ListNotations.
 
 Theorem C17_table_obligation : table_ok = true.
@@ -30,6 +30,15 @@ Theorem C17_lookup_returns_ident_or_keyword : forall s,
   lookup s = T_IDENT \/ exists e, In e token_table /\ kw_entry e = true /\ lookup s = e_idx e /\ s = e_spell e.
 Proof. exact lookup_only_from_spelling. Qed.
 Print Assumptions C17_lookup_returns_ident_or_keyword.
+
+(* converse of "classified by IsKeyword": IsKeyword accepts ONLY kinds that have a keyword entry (the range
+   keyword_beg .. keyword_end of the enum has no hole), and that entry has a good spelling which Lookup maps
+   back to the kind -- so no kind is treated as a keyword by the parser without being spellable. *)
+Theorem C17_is_keyword_only_keywords : forall t, is_keyword t = true ->
+  exists e, In e token_table /\ kw_entry e = true /\ e_idx e = t /\
+            good_spelling (e_spell e) = true /\ lookup (e_spell e) = t.
+Proof. exact is_keyword_only_keywords. Qed.
+Print Assumptions C17_is_keyword_only_keywords.
 
 (* non-vacuity: the table has keywords, e.g. SELECT *)
 Example C17_select_is_a_keyword :
